@@ -49,7 +49,7 @@ Qed.
 
 Theorem beautify_code : forall (NewMapXmlSeq : str -> list bool -> res entries)
     (XmlIndent : entries -> str -> str -> list str -> res str) st doc prefix indent,
-  fn_BeautifyXml NewMapXmlSeq XmlIndent st doc prefix indent
+  fn_BeautifyXml XmlIndent NewMapXmlSeq st doc prefix indent
   = of_res (bind (NewMapXmlSeq doc []) (fun x => XmlIndent x prefix indent [])).
 Proof.
   intros N X st doc p i. unfold fn_BeautifyXml.
